@@ -11,6 +11,15 @@
 (*   SharedHandle = TRUE   one cached handle per variable (a realistic     *)
 (*                         "optimisation")                                 *)
 (*   UseLock               the per-variable SerializableLock is taken      *)
+(*   LockOf[t]             WHICH lock thread t takes: the lock object of   *)
+(*                         the variable it loads from.  A pickled copy of a*)
+(*                         tree shares the lock of the original (the       *)
+(*                         SerializableLock token travels with the pickle):*)
+(*                         LockOf = VarOf.  A copy that ends up with a lock*)
+(*                         of its own (LockOf injective) is only safe on   *)
+(*                         file systems that give every open a private     *)
+(*                         position; on one that hands out ONE file object *)
+(*                         per path (fsspec memory://) it must fail.       *)
 (* TLC must find NO error for the code's design (fresh handle, with or     *)
 (* without lock; shared handle WITH lock) and MUST find the seek/seek/read *)
 (* counterexample for SharedHandle /\ ~UseLock -- a model that cannot      *)
@@ -18,9 +27,10 @@
 (***************************************************************************)
 EXTENDS Integers, Sequences, FiniteSets, TLC
 
-CONSTANTS Threads, VarOf, Chunks, SharedHandle, UseLock
+CONSTANTS Threads, VarOf, Chunks, SharedHandle, UseLock, LockOf
 
 Vars == { VarOf[t] : t \in Threads }
+Locks == { LockOf[t] : t \in Threads }
 Off(t, c) == 1000 * t + 100 * c          \* distinct offset of chunk c of thread t's selection
 Size == 10
 
@@ -32,12 +42,12 @@ H(t) == IF SharedHandle THEN <<"var", VarOf[t]>> ELSE <<"load", t>>
 Handles == { H(t) : t \in Threads }
 
 Init == /\ tpc = [t \in Threads |-> "start"]
-        /\ lock = [v \in Vars |-> 0]
+        /\ lock = [k \in Locks |-> 0]
         /\ hopen = [h \in Handles |-> FALSE] /\ hpos = [h \in Handles |-> 0]
         /\ ci = [t \in Threads |-> 1] /\ want = [t \in Threads |-> -1] /\ got = [t \in Threads |-> << >>]
 
 Acquire(t) == /\ tpc[t] = "start"
-              /\ IF UseLock THEN lock[VarOf[t]] = 0 /\ lock' = [lock EXCEPT ![VarOf[t]] = t] ELSE UNCHANGED lock
+              /\ IF UseLock THEN lock[LockOf[t]] = 0 /\ lock' = [lock EXCEPT ![LockOf[t]] = t] ELSE UNCHANGED lock
               /\ tpc' = [tpc EXCEPT ![t] = "locked"]
               /\ UNCHANGED <<hopen, hpos, ci, want, got>>
 
@@ -66,7 +76,7 @@ FClose(t) == /\ tpc[t] = "closing"
              /\ UNCHANGED <<lock, hpos, ci, want, got>>
 
 Release(t) == /\ tpc[t] = "closed"
-              /\ IF UseLock THEN lock' = [lock EXCEPT ![VarOf[t]] = 0] ELSE UNCHANGED lock
+              /\ IF UseLock THEN lock' = [lock EXCEPT ![LockOf[t]] = 0] ELSE UNCHANGED lock
               /\ tpc' = [tpc EXCEPT ![t] = "done"]
               /\ UNCHANGED <<hopen, hpos, ci, want, got>>
 
@@ -78,7 +88,7 @@ FairSpec == Spec /\ \A t \in Threads : WF_vars(Acquire(t) \/ FOpen(t) \/ Seek(t)
 Expected(t) == [c \in 1..Chunks[t] |-> Off(t, c)]
 ServedIsWanted    == \A t \in Threads : \A k \in 1..Len(got[t]) : got[t][k] = Off(t, k)
 ResultsSequential == \A t \in Threads : tpc[t] = "done" => got[t] = Expected(t)
-MutualExclusion   == UseLock => \A a, b \in Threads : (a # b /\ VarOf[a] = VarOf[b]) =>
+MutualExclusion   == UseLock => \A a, b \in Threads : (a # b /\ LockOf[a] = LockOf[b]) =>
                         ~(tpc[a] \in {"locked", "opened", "seeked", "closing", "closed"} /\ tpc[b] \in {"locked", "opened", "seeked", "closing", "closed"})
 Termination == <>AllDone
 =============================================================================
